@@ -187,6 +187,25 @@ ok = ok and note('Data.get()', Data(doc).get() is not None and Data(doc).get() =
 return ok
 """
     out.append(mk_case("c03.walk.empty", [("u1", U), ("u2", U)], body, pre=[f"BU({L}, u1, u2)"]))
+    # history: a path resolves the same whatever paths were built before it in the process
+    # (int / float / bool primitive parts that compare equal must keep their own part kind)
+    for n, (first, second) in enumerate([("2.0", "2"), ("2", "2.0"), ("True", "1"), ("1", "True"), ("1.0", "1"), ("0", "False"), ("0.0", "0"), ("1", "1.0")]):
+        body = f"""
+doc = {{'l': [u1, u2, 5], 'm': {{2: u1, 1: u2, 0: 7}}}}
+before = DataPath('l', {first}), DataPath('m', {first})
+ok = True
+for root in ('l', 'm'):
+    for prim in ({first}, {second}):
+        PT = (('prim', root), ('prim', prim))
+        got = DataPath(root, prim).get_data(doc, return_paths=True)
+        exp = ref_walk(PT, doc)
+        if exp:
+            ok = ok and note('selected node', got is not None and got[0] is exp[0][0]) and same('path', tx(got[1]), tx(exp[0][1]))
+        else:
+            ok = ok and note('absent', got is None)
+return ok
+"""
+        out.append(mk_case(f"c03.history.{n}", [("u1", U), ("u2", "int")], body, pre=[f"BU({L}, u1, u2)"], stubs=["sym_repr"]))
     for sh, d in [(("a", "c", "i"), "dm"), (("M", "c", "Lv"), "dm"), (("X", "X"), "dl"), (("i", "1", "j"), "dl"), (("Mk",), "dm"),
                   (("l", "L", "s"), "dm")] + ([] if ctx.quick else [(("X", "Xiv", "b"), "dm"), (("L", "M", "L"), "dl"), (("f1", "b"), "dk")]):
         out.append(entry_case(sh, d, L))
